@@ -366,6 +366,74 @@ func ruleCIDTaint(c *Ctx) {
 			c.ok(fnName(fn), "every {cid} tag is expanded", p.Pos(fn.Pos()), "form not recognised: not decided")
 		}
 	}
+	// the id set of a token reset is read later, on each connection's worker: it belongs to the event that
+	// made it — a map made in the handling function, not one kept in (and refilled through) shared state
+	if fn := p.Fn("(*rescache.Cache).handleSystemTokenReset"); fn != nil {
+		tr := p.Method("rescache.Conn.TokenReset")
+		for _, g := range p.withHelpers(fn) {
+			for _, call := range callsIn(g) {
+				if _, ok := isCallTo(call, tr); !ok {
+					continue
+				}
+				c.inst(1)
+				arg := callArgs(call.Common())[1]
+				bad := ""
+				seen := map[ssa.Value]bool{}
+				var origins func(v ssa.Value, d int)
+				origins = func(v ssa.Value, d int) {
+					if seen[v] || d > 8 {
+						return
+					}
+					seen[v] = true
+					switch x := v.(type) {
+					case *ssa.MakeMap:
+						// must not also be stored into a field
+						for _, r := range *x.Referrers() {
+							if st, ok := r.(*ssa.Store); ok && st.Val == ssa.Value(x) {
+								if _, isF := st.Addr.(*ssa.FieldAddr); isF {
+									bad = "the set is also kept in a field (" + p.InstrPos(st) + "): the next event refills the map a queued TokenReset task of an earlier event still reads"
+								}
+							}
+						}
+					case *ssa.Phi:
+						for _, e := range x.Edges {
+							origins(e, d+1)
+						}
+					case *ssa.UnOp:
+						if f, _ := fieldLoad(x); f != nil {
+							bad = "the set is loaded from field " + f.Name() + ": it is shared between events while queued TokenReset tasks of earlier events still read it"
+							return
+						}
+						if al, ok := x.X.(*ssa.Alloc); ok {
+							for _, r := range *al.Referrers() {
+								if st, ok := r.(*ssa.Store); ok && st.Addr == ssa.Value(al) {
+									origins(st.Val, d+1)
+								}
+							}
+						}
+					case *ssa.Parameter:
+						// handed in by a caller inside the handling function's helpers: follow the call sites
+						if n := p.CG.Nodes[x.Parent()]; n != nil {
+							for i, prm := range x.Parent().Params {
+								if prm != x {
+									continue
+								}
+								for _, e := range n.In {
+									if e.Site != nil && e.Site.Common().StaticCallee() == x.Parent() && i < len(e.Site.Common().Args) {
+										origins(e.Site.Common().Args[i], d+1)
+									}
+								}
+							}
+						}
+					default:
+						bad = "the set handed to the connections is not a map made by the handling function"
+					}
+				}
+				origins(arg, 0)
+				c.check(bad == "", fnName(g), "the id set of a token reset belongs to its event", p.InstrPos(call), "a map made in the handling function and kept nowhere else", bad)
+			}
+		}
+	}
 	// token reset filtered by the connection's own tid
 	if fn := p.Fn("(*server.wsConn).TokenReset"); fn != nil {
 		fTid := p.Field("server.wsConn.tid")
